@@ -88,14 +88,21 @@ class TextLab:
 
     # ---- ffi.new with a string initializer
     def new(self, T, decl, s, how):
-        """returns (units after, ffi.string(result) as code points)"""
+        """returns (units after, ffi.string(result) as code points, exception or '')"""
         ffi, W = self.ffi, self.W(T)
         v = pyval(W, s)
-        if how == "array":
-            a = ffi.new("%s[%s]" % (T, "" if decl < 0 else decl), v)
-            return self.get(a, W), cps(W, ffi.string(a))
-        p = ffi.new(self.struct(T, decl) + " *", [0, v] if how == "structlist" else {"a": v})
-        return self.get(p.a, W), cps(W, ffi.string(p.a))
+        try:
+            if how == "array":
+                a = ffi.new("%s[%s]" % (T, "" if decl < 0 else decl), v)
+            else:
+                keep = ffi.new(self.struct(T, decl) + " *", [0, v] if how == "structlist" else {"a": v})
+                a = keep.a
+        except Exception as e:
+            return [], [], "new:" + type(e).__name__
+        try:
+            return self.get(a, W), cps(W, ffi.string(a)), ""
+        except Exception as e:
+            return self.get(a, W), [], "string:" + type(e).__name__
 
     # ---- readers
     def view(self, T, units, isarr):
@@ -124,6 +131,9 @@ class TextLab:
         """list(p): every unit converted on its own"""
         a = self.array(T, units)
         out = []
-        for x in a:
-            out.append(x & 0xFF if isinstance(x, int) else (x[0] if isinstance(x, bytes) else ord(x)))
+        try:
+            for x in a:
+                out.append(x & 0xFF if isinstance(x, int) else (x[0] if isinstance(x, bytes) else ord(x)))
+        except Exception as e:
+            return [type(e).__name__]
         return out
